@@ -34,6 +34,7 @@ type simEv struct {
 type simBar struct {
 	num, den int64 // 0,0 = inherit
 	evs      []simEv
+	sameAs   int // k > 0: the bar holds the very same event objects (pointers) as bar k-1 — a repeated pattern
 }
 
 type simSong struct {
@@ -60,19 +61,30 @@ func exportSimulation(c *Ctx, toSMF0, toSMF1 *ssa.Function) {
 	}
 	songs := []simSong{
 		{"3/4, 3/4, 6/8 at 960 ticks: a note held across the bar line while the next bar already has an event on the same track", 960, []simBar{
-			{3, 4, []simEv{{1, 8, 4, 0x92}, {0, 2, 0, 0xB0}}},
-			{0, 0, []simEv{{1, 20, 8, 0x92}}},
-			{6, 8, []simEv{{1, 2, 0, 0xC2}}},
+			{3, 4, []simEv{{1, 8, 4, 0x92}, {0, 2, 0, 0xB0}}, 0},
+			{0, 0, []simEv{{1, 20, 8, 0x92}}, 0},
+			{6, 8, []simEv{{1, 2, 0, 0xC2}}, 0},
 		}},
 		{"12/8, 4/4 (explicit), inherited, 5/32 at 96 ticks: a long bar, a 32nd-note signature, track numbers 0 and 3", 96, []simBar{
-			{12, 8, []simEv{{3, 40, 6, 0x95}, {0, 47, 0, 0xB1}}},
-			{4, 4, []simEv{{0, 1, 3, 0x91}}},
-			{0, 0, []simEv{{3, 31, 0, 0xC5}}},
-			{5, 32, []simEv{{0, 4, 0, 0xB1}}},
+			{12, 8, []simEv{{3, 40, 6, 0x95}, {0, 47, 0, 0xB1}}, 0},
+			{4, 4, []simEv{{0, 1, 3, 0x91}}, 0},
+			{0, 0, []simEv{{3, 31, 0, 0xC5}}, 0},
+			{5, 32, []simEv{{0, 4, 0, 0xB1}}, 0},
 		}},
 		{"six bars, the time signature changes at every bar (2/4, 3/4, 2/4, ...), 480 ticks", 480, []simBar{
-			{2, 4, []simEv{{0, 1, 2, 0x90}}}, {3, 4, []simEv{{0, 1, 0, 0xB0}}}, {2, 4, []simEv{{0, 3, 0, 0xC0}}},
-			{3, 4, []simEv{{0, 1, 2, 0x90}}}, {2, 4, []simEv{{0, 5, 0, 0x90}}}, {3, 4, []simEv{{0, 7, 0, 0xC0}}},
+			{2, 4, []simEv{{0, 1, 2, 0x90}}, 0}, {3, 4, []simEv{{0, 1, 0, 0xB0}}, 0}, {2, 4, []simEv{{0, 3, 0, 0xC0}}, 0},
+			{3, 4, []simEv{{0, 1, 2, 0x90}}, 0}, {2, 4, []simEv{{0, 5, 0, 0x90}}, 0}, {3, 4, []simEv{{0, 7, 0, 0xC0}}, 0},
+		}},
+		{"3/4, 6/8, 2/2, 4/4, 4/4 at 384 ticks: signatures that change while the bar length stays the same, a first bar as long as the default; bars 2 and 4 repeat the pattern of bar 0 (the same event objects)", 384, []simBar{
+			{3, 4, []simEv{{0, 3, 2, 0x93}, {2, 9, 0, 0xB3}}, 0},
+			{6, 8, []simEv{{0, 5, 0, 0xC3}}, 0},
+			{2, 2, nil, 1},
+			{4, 4, []simEv{{2, 30, 1, 0x94}}, 0},
+			{0, 0, nil, 1},
+		}},
+		{"2/2 from the first bar (as long as the default 4/4), 960 ticks", 960, []simBar{
+			{2, 2, []simEv{{0, 16, 4, 0x90}}, 0},
+			{0, 0, []simEv{{0, 0, 0, 0xB0}}, 0},
 		}},
 	}
 	for _, sg := range songs {
@@ -104,6 +116,11 @@ func exportSimulation(c *Ctx, toSMF0, toSMF1 *ssa.Function) {
 			t32 := sg.q / 8
 			var barVals []Val
 			var want []placed
+			type builtBar struct {
+				ptrs []Val
+				msgs [][]Val
+			}
+			var barBuilt []builtBar
 			cur := [2]int64{4, 4}
 			start := int64(0)
 			for bi, b := range sg.bars {
@@ -116,6 +133,19 @@ func exportSimulation(c *Ctx, toSMF0, toSMF1 *ssa.Function) {
 				// the bar as the user hands it to AddBar: its own signature, or none (AddBar lets it inherit)
 				bar.Fields[fieldIndex(bar.T, "TimeSig")] = &ArrayV{Elem: types.Typ[types.Uint8], Segs: []Seg{{Elems: []Val{k8(b.num), k8(b.den)}}}}
 				var evPtrs []Val
+				if b.sameAs > 0 {
+					src := barBuilt[b.sameAs-1]
+					evPtrs = src.ptrs
+					for ei, e := range sg.bars[b.sameAs-1].evs {
+						msg := src.msgs[ei]
+						tick := (start + e.pos) * t32
+						want = append(want, placed{track: e.track, tick: tick, msg: msg})
+						if e.status&0xF0 == 0x90 && e.dur > 0 {
+							want = append(want, placed{track: e.track, tick: tick + e.dur*t32, kind: "noteoff", a: k8(e.status & 0x0F), b: msg[1]})
+						}
+					}
+				}
+				var builtMsgs [][]Val
 				for ei, e := range b.evs {
 					ev := ex.zeroOf(sevT).(*StructV)
 					ev.Fields[fieldIndex(ev.T, "TrackNo")] = mkConst(int64(e.track), 64, true)
@@ -132,6 +162,7 @@ func exportSimulation(c *Ctx, toSMF0, toSMF1 *ssa.Function) {
 					ev.Fields[fieldIndex(ev.T, "Message")] = ex.mkBytes(st, "m", msg, false, 0)
 					id := ex.newObj(st, ev, sevT)
 					evPtrs = append(evPtrs, &PtrV{Obj: id})
+					builtMsgs = append(builtMsgs, msg)
 					tick := (start + e.pos) * t32
 					want = append(want, placed{track: e.track, tick: tick, msg: msg})
 					if e.status&0xF0 == 0x90 && e.dur > 0 {
@@ -143,6 +174,7 @@ func exportSimulation(c *Ctx, toSMF0, toSMF1 *ssa.Function) {
 					n := mkConst(int64(len(evPtrs)), 64, true)
 					bar.Fields[fieldIndex(bar.T, "Events")] = &SliceV{Obj: aid, Off: mkConst(0, 64, true), Len: n, Cap: n}
 				}
+				barBuilt = append(barBuilt, builtBar{evPtrs, builtMsgs})
 				barVals = append(barVals, bar)
 				start += cur[0] * 32 / cur[1]
 			}
